@@ -412,3 +412,43 @@ Proof.
   destruct (ndone s) eqn:E; [|lia]. specialize (C4 eq_refl (c, None)). rewrite Hs in C4.
   specialize (C4 (or_introl eq_refl)). cbn [fst] in C4. congruence.
 Qed.
+
+(* ---------------------------------------------------------------------------------------- *)
+(* calc changes: a cell's value changes at most once in an update loop (when the cell is computed), so
+   the changes recorded by a run (_changes_map: row, previous, new) are, as a multiset, the difference
+   between the initial and the final values, whatever the order of evaluation *)
+
+Lemma value_eq_dec (a b : value) : {a = b} + {a <> b}.
+Proof. repeat decide equality. Qed.
+
+Lemma step_val_change_clean P s s' c : step P s s' -> val s' c <> val s c -> mem c (dirty s') = false.
+Proof.
+  intros H Hv.
+  assert (F : forall x v, val (finish s x v) c <> val s c -> mem c (dirty (finish s x v)) = false).
+  { intros x v Hx. cbn [finish val dirty] in *. destruct (cell_eq_dec c x) as [->|Ne].
+    - apply mem_remove_same.
+    - rewrite upd_other in Hx by exact Ne. congruence. }
+  destruct H; cbn [val] in Hv; try congruence; apply F; exact Hv.
+Qed.
+
+Lemma steps_clean_stable P s s' c :
+  steps P s s' -> mem c (dirty s) = false -> mem c (dirty s') = false /\ val s' c = val s c.
+Proof.
+  induction 1 as [s|s1 s2 s3 H12 H23 IH]; intros Hc; [auto|].
+  destruct (step_clean_stable P s1 s2 c H12 Hc) as [Hc2 Hv2].
+  destruct (IH Hc2) as [Hc3 Hv3]. split; [exact Hc3 | congruence].
+Qed.
+
+Lemma steps_val_change_clean P s s' c : steps P s s' -> val s' c <> val s c -> mem c (dirty s') = false.
+Proof.
+  induction 1 as [s|s1 s2 s3 H12 H23 IH]; intros Hv; [congruence|].
+  destruct (value_eq_dec (val s2 c) (val s1 c)) as [E|Ne].
+  - apply IH. congruence.
+  - apply (steps_clean_stable P s2 s3 c H23). eapply step_val_change_clean; eassumption.
+Qed.
+
+Theorem value_changes_once P s s' s'' c :
+  steps P s s' -> steps P s' s'' -> val s' c <> val s c -> val s'' c = val s' c.
+Proof.
+  intros H1 H2 Hv. apply (steps_clean_stable P s' s'' c H2). eapply steps_val_change_clean; eassumption.
+Qed.
